@@ -312,7 +312,13 @@ impl Engine for QuantEngine {
                         format!("input {:e}: stairstep {:e} + fraction {:e} = {:e}", v, c.stairstep, c.fraction, sum64)
                     });
                     // precondition of the clause is observable: the window actually kept the previous note
-                    if kept_by_window && Some(note) == p {
+                    // "the hysteresis window kept the previous note": the previous note came back although a quantizer
+                    // without history would have reported another one, or the input is inside the window of the statement
+                    let kept = Some(note) == p && (kept_by_window || {
+                        let mut twin = fresh_with(mask);
+                        real!(twin.convert(v)).note_num != note
+                    });
+                    if kept {
                         let f = c.fraction as f64;
                         ctx.check(19, "fraction_range_when_window_kept_note", f >= -0.1 * SEMI - 1e-6 && f <= 1.1 * SEMI + 1e-6, || {
                             format!("hysteresis kept note {} for input {:e} but fraction is {:e} V ({:.4} semitones)", note, v, f, f * 12.0)
